@@ -68,13 +68,19 @@ func TestProp_Routing(t *testing.T) {
 		startDone := make(chan error, 1)
 		go func() { startDone <- split.Start() }()
 
-		// topology
+		// topology; some sub-listeners are registered LATE, after a first wave of clients
+		// has already been routed (or closed for want of a listener)
 		registered := map[string]bool{} // name -> native
-		var regNames []string
+		var regNames, lateNames []string
+		lateNative := map[string]bool{}
 		for _, n := range append([]string{nodenet.UnauthenticatedNextProto, nodenet.AuthenticatedNonSpecificNextProto}, specific[:3]...) {
-			if rapid.Bool().Draw(t, "register-"+n) {
+			switch rapid.SampledFrom([]string{"no", "yes", "yes", "late"}).Draw(t, "register-"+n) {
+			case "yes":
 				registered[n] = rapid.Bool().Draw(t, "native-"+n)
 				regNames = append(regNames, n)
+			case "late":
+				lateNative[n] = rapid.Bool().Draw(t, "native-"+n)
+				lateNames = append(lateNames, n)
 			}
 		}
 		var mu sync.Mutex
@@ -82,8 +88,7 @@ func TestProp_Routing(t *testing.T) {
 		var lwg sync.WaitGroup
 		subs := map[string]net.Listener{}
 		closedErrs := map[string]error{}
-		for _, name := range regNames {
-			name := name
+		register := func(name string) {
 			ln, err := split.GetListener(name, nodeenrollment.WithNativeConns(registered[name]))
 			if err != nil {
 				t.Fatalf("GetListener: %v", err)
@@ -128,6 +133,9 @@ func TestProp_Routing(t *testing.T) {
 				}
 			}()
 		}
+		for _, name := range regNames {
+			register(name)
+		}
 
 		node := vkit.NewActor("node")
 		if err := w.Enroll(node); err != nil {
@@ -135,6 +143,10 @@ func TestProp_Routing(t *testing.T) {
 		}
 		// clients
 		n := rapid.IntRange(5, 20).Draw(t, "clients")
+		firstWave := n
+		if len(lateNames) > 0 {
+			firstWave = rapid.IntRange(1, n-1).Draw(t, "clientsBeforeLateRegistration")
+		}
 		var specs []*clientSpec
 		kinds := map[string]bool{}
 		interesting := false
@@ -143,6 +155,16 @@ func TestProp_Routing(t *testing.T) {
 		var emu sync.Mutex
 		nameAlphabet := append([]string{"h2", "__AUTH__", "__UNAUTH__", "zeta"}, specific...)
 		for i := 0; i < n; i++ {
+			if i == firstWave {
+				// let the first wave finish, then register the late sub-listeners
+				cwg.Wait()
+				time.Sleep(20 * time.Millisecond)
+				for _, name := range lateNames {
+					registered[name] = lateNative[name]
+					regNames = append(regNames, name)
+					register(name)
+				}
+			}
 			cs := &clientSpec{ID: i}
 			cs.Kind = rapid.SampledFrom([]string{"authenticated", "authenticated", "base-tls", "base-tls", "fetch-only", "failing"}).Draw(t, "kind")
 			kinds[cs.Kind] = true
